@@ -23,10 +23,13 @@ class PathEnd(Exception):
 
 
 class PyRaise(Exception):
-    def __init__(self, cls, val=None, msg=None):
+    def __init__(self, cls, val=None, msg=None, unknown=False):
         self.cls = cls
         self.val = val
         self.msg = msg
+        # unknown: an exception of some class we know nothing about (what a failed Deferred delivers at a `yield`):
+        # a handler for anything narrower than Exception may or may not catch it
+        self.unknown = unknown
 
 
 class _Return(Exception):
@@ -870,6 +873,22 @@ class Engine:
                 raise Unsupported('slice step')
             return self.B.slice(self, base, lo, hi)
         idx = self.eval(node.slice, fr)
+        if not self.pure and isinstance(node.value, ast.Name) and isinstance(base, V) and base.ty[0] == 'dict':
+            f = fr
+            while f is not None and node.value.id not in f.vars:
+                f = f.parent
+            if f is not None and node.value.id in f.ghost.get('defaultdicts', ()):
+                # defaultdict(list): a missing key reads as a new empty list, which is stored under the key
+                key = T.coerce(idx, base.ty[1])
+                if self.branch(self.B.dict_member(self, base, key.t)):
+                    return self.B.index(self, base, idx)
+                empty = V(base.ty[2], z3.Empty(T.sort_of(base.ty[2])))
+                f.assign(node.value.id, self.B.dict_set(self, base, key, empty))
+                return empty
+            if f is not None and node.value.id in f.ghost.get('defaultdicts_store_only', ()):
+                key = T.coerce(idx, base.ty[1])
+                if not self.branch(self.B.dict_member(self, base, key.t)):
+                    raise Unsupported('missing key read from defaultdict %s declared with non-list values' % node.value.id)
         return self.B.index(self, base, idx)
 
     def e_ListComp(self, node, fr):
@@ -1312,6 +1331,16 @@ class Engine:
         self.assign(s.target, self.binop(s.op, cur, v), fr)
 
     def assign(self, tgt, v, fr):
+        if isinstance(tgt, ast.Name) and isinstance(v, PyObj) and v.kind == 'defaultdict_list':
+            c = self.contract_for_frame(fr)
+            lt = (c.extra.get('locals', {}) if c is not None else {}).get(tgt.id)
+            lty = T.parse_ty(lt) if lt is not None else None
+            if lty is None or lty[0] != 'dict':
+                raise Unsupported('defaultdict(list) bound to %s without a Dict[...] type in the contract locals' % tgt.id)
+            fr.assign(tgt.id, T.empty_dict(lty))
+            # declared with other values than lists (the code only ever stores into it): reading a missing key is unsupported
+            fr.ghost.setdefault('defaultdicts' if lty[2][0] == 'list' else 'defaultdicts_store_only', set()).add(tgt.id)
+            return
         if isinstance(tgt, ast.Name):
             if isinstance(v, V) and v.ty[0] in ('list', 'dict') and v.ty[1] == ANY:
                 # an empty literal gets its element type from the sidecar's `locals` declaration
@@ -1481,6 +1510,11 @@ class Engine:
                 names.append(o.payload)
             else:
                 raise Unsupported('except clause type %r' % (o,))
+        if getattr(e, 'unknown', False) and not any(self.exc.issub('Exception', n) for n in names):
+            if self.branch(self.fresh(BOOL, 'delivered_exc_is_' + names[0]).t):
+                e.cls, e.unknown = names[0], False
+                return True
+            return False
         return any(self.exc.issub(e.cls, n) for n in names)
 
     def s_FunctionDef(self, s, fr):
